@@ -33,7 +33,7 @@ from pathlib import Path
 
 from src.core.base import BaseLintContext, BaseLintRule
 from src.core.constants import HEADER_SCAN_LINES, IgnoreDirective, Language
-from src.core.linter_utils import load_linter_config
+from src.core.linter_utils import load_linter_config, project_relative_path
 from src.core.types import Severity, Violation
 from src.linter_config.ignore import get_ignore_parser
 from src.linter_config.rule_matcher import rule_matches
@@ -179,7 +179,8 @@ class StatelessClassRule(BaseLintRule):  # thailint: ignore[srp,dry]
         if not context.file_path:
             return False
 
-        file_path = Path(context.file_path)
+        # Patterns describe locations inside the project: directories above it take no part
+        file_path = Path(project_relative_path(context))
         return any(self._matches_pattern(file_path, pattern) for pattern in config.ignore)
 
     def _matches_pattern(self, file_path: Path, pattern: str) -> bool:
@@ -295,7 +296,7 @@ class StatelessClassRule(BaseLintRule):  # thailint: ignore[srp,dry]
             List of classes with test classes removed
         """
         # If file is a test file, exempt all classes
-        if is_test_file(str(context.file_path) if context.file_path else None):
+        if is_test_file(project_relative_path(context) if context.file_path else None):
             return []
 
         class_nodes = self._parse_class_nodes(context)
